@@ -26,7 +26,7 @@ pub fn names(args: &[String]) {
     println!("{}", json!({"commands": n, "mismatches": 0, "bad": []}));
 }
 
-const SETUP: &str = "arr = array a \"b c\" \"\"\nmp = map\nmap_put ${mp} k v\nst = set_new x y\nby = string_to_bytes héllo\nrel = array z\nrelease ${rel}\nv = set value\ncarr = array c\narray_push ${carr} ${carr}\ncmp = map\ncin = array\nmap_put ${cmp} inner ${cin}\narray_push ${cin} ${cmp}\n";
+const SETUP: &str = "arr = array a \"b c\" \"\"\nmp = map\nmap_put ${mp} k v\nst = set_new x y\nby = string_to_bytes héllo\nrel = array z\nrelease ${rel}\nv = set value\ncarr = array c\narray_push ${carr} ${carr}\ncmp = map\ncin = array\nmap_put ${cmp} inner ${cin}\narray_push ${cin} ${cmp}\nobj = set [OBJECT]\nobj.a = set 1\nobjx = set sibling\nobj_list.length = set 1\n";
 fn instantiate(kind: &str, ctx: &Context, prev: &Option<String>) -> String {
     let h = |k: &str| ctx.variables.get(k).cloned().unwrap_or_default();
     match kind {
@@ -35,7 +35,7 @@ fn instantiate(kind: &str, ctx: &Context, prev: &Option<String>) -> String {
         "E" => String::new(), "0" => "0".into(), "1" => "1".into(), "-1" => "-1".into(), "5" => "5".into(), "HUGE" => "99999999999999999999".into(), "I64" => "9223372036854775808".into(),
         "DEC" => "1.5".into(), "W" => "abc".into(), "MB" => "héllo😀".into(), "SP" => "a b".into(), "QT" => "say \"hi\" #now".into(), "QT2" => "a b #c\"d 'e".into(), "NL" => "two\nlines".into(), "LF" => "\n".into(), "CRLF" => "\r\n".into(),
         "COPY" => "--copy".into(), "-r" => "-r".into(), "COLL" => "--collection".into(), "PREFIX" => "--prefix".into(), "IN" => "in".into(), "SCOPE" => "<scope>".into(),
-        "KV" => "a=b".into(), "JSON" => "{\"k\":[1,null,{\"a\":\"b\"}]}".into(), "SEMVER" => "1.2.3".into(), "VAR" => "v".into(), "NOVAR" => "nope".into(),
+        "KV" => "a=b".into(), "JSON" => "{\"k\":[1,null,{\"a\":\"b\"}]}".into(), "SEMVER" => "1.2.3".into(), "VAR" => "v".into(), "NOVAR" => "nope".into(), "OBJ" => "obj".into(),
         "F" => "f.txt".into(), "D" => "d".into(), "G" => "d/g.txt".into(), "GLOB" => "*.txt".into(), "NOFILE" => "missing/none.txt".into(), "SEPEXT" => "d/g.txt".into(),
         "EQ" => "=".into(), "PAR" => "(".into(), "AND" => "and".into(),
         other => other.to_string(),
